@@ -265,8 +265,11 @@ def genAnyType (e : BEnv) (Γ : Ctx) (cfg : SerCfg) : Nat → Val → XmlVar →
       let ns' := match q with | some q => targetUri q | none => ns
       let kids ← children.mapM (fun c => genAnyType e Γ cfg fuel c var ns')
       let tl := match tail with | some t => if t.isEmpty then [] else [Ev.data (.prim (.str t))] | none => []
+      -- an `xsi:nil` of the element's own attributes: the start tag is flushed by a `DATA None` first
+      let nilFlush := if attrs.any (·.1 = xsiNil) then [Ev.data .none] else []
       return (match q with | some q => [Ev.start q] | none => [])
         ++ attrs.map (fun (k, x) => Ev.attr k (.prim (.str x)))
+        ++ nilFlush
         ++ [Ev.data (match text with | some t => .prim (.str t) | none => .none)]
         ++ kids.flatten
         ++ (match q with | some q => [Ev.end q] | none => [])
@@ -327,6 +330,8 @@ def genChoice (e : BEnv) (Γ : Ctx) (cfg : SerCfg) : Nat → Val → XmlVar → 
       match var.findChoice qname with
       | none => .error (.serializer "XmlElements undefined choice")
       | some choice =>
+        if choice.isWildcard then genAnyType e Γ cfg fuel v choice ns   -- like a wildcard field
+        else
         match value with
         | .obj .. => genAnyType e Γ cfg fuel value choice ns     -- convert_xsi_type on a model
         | _ => convertElement choice.toVarCore value
